@@ -7,6 +7,7 @@ import (
 	"go/types"
 	"sort"
 	"strings"
+	"verifsa/internal/load"
 
 	"golang.org/x/tools/go/ssa"
 
@@ -566,6 +567,46 @@ func be16Range(v ssa.Value, buf ssa.Value) (int64, int64) {
 // structStores: the field values of a struct value built as `local T; t.f = v...; load`.
 func structStores(v ssa.Value) map[string]ssa.Value {
 	out := map[string]ssa.Value{}
+	// the entry built by a constructor of the package (NewOption(tag, value)): the constructor's field expressions with its
+	// parameters replaced by the arguments; `uint16(len(param))` of an argument `make([]byte, n)` is n
+	if call, isC := v.(*ssa.Call); isC {
+		cal := call.Call.StaticCallee()
+		if cal == nil || cal.Pkg == nil || !load.InModule(cal.Pkg.Pkg) || len(cal.Blocks) != 1 || cal.Signature.Results().Len() != 1 {
+			return out
+		}
+		ret, isR := cal.Blocks[0].Instrs[len(cal.Blocks[0].Instrs)-1].(*ssa.Return)
+		if !isR || len(ret.Results) != 1 {
+			return out
+		}
+		paramIdx := func(x ssa.Value) int {
+			for i, prm := range cal.Params {
+				if x == ssa.Value(prm) {
+					return i
+				}
+			}
+			return -1
+		}
+		for f, e := range structStores(ret.Results[0]) {
+			e = stripConv(e)
+			if ct, isCT := e.(*ssa.ChangeType); isCT {
+				e = stripConv(ct.X)
+			}
+			if i := paramIdx(e); i >= 0 && i < len(call.Call.Args) {
+				out[f] = call.Call.Args[i]
+				continue
+			}
+			if lc, isL := e.(*ssa.Call); isL {
+				if bi, isB := lc.Call.Value.(*ssa.Builtin); isB && bi.Name() == "len" {
+					if i := paramIdx(lc.Call.Args[0]); i >= 0 && i < len(call.Call.Args) {
+						if ms, isMS := call.Call.Args[i].(*ssa.MakeSlice); isMS {
+							out[f] = ms.Len
+						}
+					}
+				}
+			}
+		}
+		return out
+	}
 	ld, ok := v.(*ssa.UnOp)
 	if !ok {
 		return out
